@@ -264,6 +264,19 @@ def extract_lambda_from_source(source: str):
     return source[node.first_token.startpos:node.last_token.endpos]
 
 
+def parenthesize_lambda_body(source: str):
+    """Enclose the body of a lambda expression in parentheses"""
+    atok = asttokens.ASTTokens("(" + source + "\n)", parse=True)
+
+    for node in ast.walk(atok.tree):
+        if isinstance(node, ast.Lambda):
+            break
+
+    start = node.body.first_token.startpos - 1  # -1 for the preceding "("
+    end = node.body.last_token.endpos - 1
+    return source[:start] + "(" + source[start:end] + ")" + source[end:]
+
+
 def extract_lambda_from_func(func: FunctionType):
     """Get source from function/lambda expression.
 
@@ -366,6 +379,13 @@ class Formula:
 
         namespace = {}
         # Assign the lambda to a temporary name to extract its object.
+        try:
+            compile(src, "<string>", mode="eval")
+        except SyntaxError:
+            # The expression spans multiple lines relying on
+            # the parentheses around it in the original code.
+            src = parenthesize_lambda_body(src)
+
         lambda_assignment = "_lambdafunc = " + src
 
         exec(lambda_assignment, namespace)
